@@ -370,3 +370,47 @@ def battery_multiscalar_sizes(seed, sizes, which=("P.MultiScalarMult", "P.VarTim
             if nm != o["args"][0] and r["slots"].get(nm) != val:
                 return dict(what="%s with %d terms modified input %s" % (op, n, nm), op=op, args=o["args"], init=o["init"])
     return None
+
+
+def battery_history_variants(seed):
+    """'identical output no matter what was computed before', aimed at value-keyed caches: consecutive calls in one process
+    whose point arguments are related - the same raw (X, Y) limbs with (Z, T) negated (a different valid point, P + (0,-1)),
+    a rescaled representation of the same point, the same point again - each checked against the stateless oracle"""
+    rng = random.Random(seed)
+    pts = [q for q in bank(rng, 6) if q[0] * q[1] % P != 0][:4]
+    ops, meta = [], []
+
+    def raw(aff, z, flip=False):
+        x, y = aff
+        X, Y, Z, T = x * z % P, y * z % P, z % P, x * y * z % P
+        if flip:
+            Z, T = (-Z) % P, (-T) % P
+        return fmt_pt([ref.limbs_of(c) for c in (X, Y, Z, T)])
+    for p in pts:
+        z = rng.randrange(2, P)
+        pflip = ((-p[0]) % P, (-p[1]) % P)          # the point that (X:Y:-Z:-T) represents
+        q = pts[(pts.index(p) + 1) % len(pts)]
+        for ks in ((3, 5), (rng.randrange(L) | 1, rng.randrange(L)), (1, 0)):
+            seqs = [(raw(p, z), p), (raw(p, z, True), pflip), (raw(p, z), p), (raw(p, 2 * z % P), p), (raw(p, z, True), pflip)]
+            for rp, aff in seqs:
+                k0, k1 = ks
+                init = {"v": "pt:zero", "k0": scalar_words(k0), "k1": scalar_words(k1), "p": rp, "q": raw(q, 1)}
+                ops.append({"op": "P.VarTimeMultiScalarMult", "args": ["v", "k0|k1", "p|q"], "init": init})
+                meta.append(ref.ed_add(ref.ed_mul(k0, aff), ref.ed_mul(k1, q)))
+                ops.append({"op": "P.VarTimeDoubleScalarBaseMult", "args": ["v", "k0", "p", "k1"], "init": init})
+                meta.append(ref.ed_add(ref.ed_mul(k0, aff), ref.ed_mul(k1, ref.BASE)))
+                ops.append({"op": "P.MultiScalarMult", "args": ["v", "k0|k1", "p|q"], "init": init})
+                meta.append(ref.ed_add(ref.ed_mul(k0, aff), ref.ed_mul(k1, q)))
+                ops.append({"op": "P.ScalarMult", "args": ["v", "k0", "p"], "init": init})
+                meta.append(ref.ed_mul(k0, aff))
+                ops.append({"op": "P.Add", "args": ["v", "p", "q"], "init": init})
+                meta.append(ref.ed_add(aff, q))
+    res = native.run_ops("", ops)
+    for i, (o, want, r) in enumerate(zip(ops, meta, res)):
+        if "panic" in r:
+            return dict(what="%s panics in a call sequence: %s" % (o["op"], r["panic"]), op=o["op"], args=o["args"], init=o["init"], position_in_sequence=i)
+        got = affine_of(r["slots"][o["args"][0]])
+        if got != want:
+            return dict(what="%s gives %s, expected %s, as call #%d of a sequence on related representations (same raw X,Y with Z,T negated / rescaled): the result depends on earlier calls" % (o["op"], got, want, i),
+                        op=o["op"], args=o["args"], init=o["init"], position_in_sequence=i, sequence=[x["op"] for x in ops[max(0, i - 6):i + 1]])
+    return None
